@@ -43,6 +43,7 @@ var (
 	c16sTopics = []string{"t", "c", "b:c", "b/offsets/c", "c/0", "t:1", "", "ü-topic", "offsets", "t/1", "0", "c:0", "T", "t:0", "metadata"}
 	c16sParts  = []int32{0, 0, 1, 1, 10, math.MaxInt32, 7, -1}
 	c16sMetas  = []string{"", "m", "with \"quotes\" \\", "ユニコード", "line\nbreak", "{\"offset\":-1}", "a:b/c", "\u0000"}
+	c16sPieces = []string{":", "/", "a", "b", "c", "0", "1", "offsets", "metadata", "ü", "日", " ", "-", ".", "%2F", "\\"}
 	c16sAlias  = [][2][2]string{
 		{{"a:b", "c"}, {"a", "b:c"}},
 		{{"a/offsets/b", "c"}, {"a", "b/offsets/c"}},
@@ -90,7 +91,7 @@ func TestVerifC16Store(t *testing.T) {
 		t.Fatalf("etcd admin client: %v", err)
 	}
 	defer admin.Close()
-	n := r.N(80, 6000)
+	n := r.N(100, 2500)
 	const workers = 4
 	var wg sync.WaitGroup
 	for w := 0; w < workers; w++ {
@@ -139,11 +140,21 @@ func c16sCase(r *verifkit.Run, admin *clientv3.Client, endpoints []string, ns, k
 		a := c16sAlias[rng.Intn(len(c16sAlias))]
 		gs[a[0][0]], ts[a[0][1]], gs[a[1][0]], ts[a[1][1]] = true, true, true, true
 	}
+	name := func(listed []string) string { // mostly a listed name, sometimes 1-4 random pieces
+		if rng.Intn(10) < 7 {
+			return listed[rng.Intn(len(listed))]
+		}
+		var b strings.Builder
+		for k := 1 + rng.Intn(4); k > 0; k-- {
+			b.WriteString(c16sPieces[rng.Intn(len(c16sPieces))])
+		}
+		return b.String()
+	}
 	for len(gs) < 3 {
-		gs[c16sGroups[rng.Intn(len(c16sGroups))]] = true
+		gs[name(c16sGroups)] = true
 	}
 	for len(ts) < 3 {
-		ts[c16sTopics[rng.Intn(len(c16sTopics))]] = true
+		ts[name(c16sTopics)] = true
 	}
 	var groups, topics []string
 	for g := range gs {
